@@ -515,7 +515,46 @@ func RunConcScenario(sc *Scenario) (vd *Verdict) {
 			fail(v)
 			return
 		}
+		// every identifier of an acknowledged write has its internal id and finds its entity
+		for _, cos := range r.ops {
+			for _, co := range cos {
+				if co.op.K != "batch" || co.err != nil || (co.op.M != nil && co.op.M["invalid"] == true) {
+					continue
+				}
+				for _, e := range co.op.Ents {
+					id := markerToFull(fmt.Sprint(e["id"]))
+					c, err := h.Store.GetNamespacedIdentifier(id, nil)
+					if err != nil {
+						continue
+					}
+					if _, ok := h.Store.VerifIDForURI(c); !ok {
+						fail(viol("C13", "identifiers", "acknowledged-identifier-without-id:concurrent", "task %d op %d: the batch writing %s was acknowledged, but the identifier has no internal id", co.task, co.idx, shortURI(id)))
+						return
+					}
+					if ent, err := h.Store.GetEntity(c, []string{co.op.DS}, true); err != nil || ent == nil {
+						fail(viol("C13", "identifiers", "acknowledged-entity-not-found:concurrent", "task %d op %d: the batch writing %s to %s was acknowledged, but a lookup by identifier finds nothing (err=%v)", co.task, co.idx, shortURI(id), co.op.DS, err))
+						return
+					}
+				}
+			}
+		}
 		if _, v := RawConsistency(h, "C13"); v != nil {
+			fail(v)
+			return
+		}
+		// and everything handed out survives a clean restart
+		if err := h.Close(); err != nil {
+			fail(viol("C13", "restart", "close-failed", "%v", err))
+			return
+		}
+		h2, err := OpenHub(h.Dir, sc.Knobs)
+		if err != nil {
+			fail(viol("C13", "restart", "reopen-failed", "%v", err))
+			return
+		}
+		defer h2.Close()
+		r.Stats["restarts"]++
+		if v := ObserveNS(h2, mem, cur, ":concurrent-then-restart"); v != nil {
 			fail(v)
 			return
 		}
